@@ -18,6 +18,7 @@ Var(s, v) ==
     [] v = "rp"   -> [ZeroRec(s) EXCEPT !.rp = TRUE, !.queued = 7, !.received = 7, !.qIdx = 3, !.rIdx = 3, !.limit = 7, !.reqFin = TRUE]
     [] v = "ip"   -> [ZeroRec(s) EXCEPT !.ip = TRUE, !.queued = 2, !.received = 2, !.qIdx = 1, !.rIdx = 1]
     [] v = "both" -> [ZeroRec(s) EXCEPT !.ip = TRUE, !.rp = TRUE]
+    [] v = "mixed" -> [ZeroRec(s) EXCEPT !.vouchers = <<"v0","v1@vtB">>, !.received = 2, !.rIdx = 1]   \* a later voucher of another type
 
 Res(acc, err, vres, force, limit, reqFin) == [err |-> err, accepted |-> acc, vres |-> vres, force |-> force, limit |-> limit, reqFin |-> reqFin]
 AcceptRes == Res(TRUE, FALSE, "", FALSE, 0, FALSE)
@@ -68,10 +69,11 @@ StimsFor(role) ==
 
 ExistingCases == UNION {
    {[role |-> ro, status |-> s, var |-> v, stim |-> st, types |-> ty, kind |-> "existing"] :
-       s \in Statuses, v \in (IF Family = "c04" THEN {"zero","prog"} ELSE {"zero","prog","rp","ip"}), st \in StimsFor(ro),
-       ty \in IF Family = "c04" THEN {<<"vt">>, << >>} ELSE {<<"vt">>}}
+       s \in Statuses, v \in (IF Family = "c04" THEN {"zero","prog","mixed"} ELSE {"zero","prog","rp","ip"}), st \in StimsFor(ro),
+       ty \in IF Family = "c04" THEN {<<"vt">>, << >>, <<"vt","vtB">>} ELSE {<<"vt">>}}
    : ro \in (IF Family = "c04" THEN Roles \cap {"respPush","respPull"} ELSE Roles)}
-ValidExisting(c) == (c.types = << >> => c.stim.val \in ValFew)
+ValidExisting(c) == /\ (c.types # <<"vt">> => c.stim.val \in ValFew)
+                    /\ ((c.var = "mixed") <=> (c.types = <<"vt","vtB">>))
 
 (* stimuli with no channel: new requests under every validator outcome / registry / path *)
 NewCases == IF Family \in {"c04","all"} THEN
